@@ -38,6 +38,8 @@ def stim_rows(op, k_targets):
             Lp = int(op.get("pattern_len", L))
             a, b = sorted([op["seed"] % max(Lp, 1), (op["seed"] // 7) % max(Lp, 1)])
             row = [x if a <= j <= b else 0.0 for j, x in enumerate(row)]
+        if op.get("ints"):
+            row = [float(round(x)) for x in row]  # handed over as an integer-typed array (e.g. a placeholder of zeros)
         rows.append(row)
     return rows
 
@@ -197,6 +199,8 @@ def _plan(w, op):
         if op.get("bad_batch"):
             rows = rows[:1] * (ktargets + 1)
         arr = np.asarray(rows[0] if (len(rows) == 1 and not op.get("two_d")) else rows, dtype=float)
+        if op.get("ints"):
+            arr = arr.astype(np.int32)
         info["shape"] = list(arr.shape)
 
         def do():
